@@ -59,12 +59,12 @@ const BaseURL = "http://mem.test"
 type Comp string
 
 const (
-	CompNone      Comp = "none"      // client accepts nothing, sends identity; handler still has gzip
-	CompDefault   Comp = "default"   // library defaults: client accepts gzip, sends identity
-	CompSendGzip  Comp = "sendgzip"  // client sends gzip
-	CompSendMin   Comp = "sendmin"   // client sends gzip, both sides compress-min-bytes = MinBytes
-	CompCustom    Comp = "custom"    // algorithm "rev1" on both sides, client sends it
-	MinBytes           = 64
+	CompNone     Comp = "none"     // client accepts nothing, sends identity; handler still has gzip
+	CompDefault  Comp = "default"  // library defaults: client accepts gzip, sends identity
+	CompSendGzip Comp = "sendgzip" // client sends gzip
+	CompSendMin  Comp = "sendmin"  // client sends gzip, both sides compress-min-bytes = MinBytes
+	CompCustom   Comp = "custom"   // algorithm "rev1" on both sides, client sends it
+	MinBytes          = 64
 )
 
 var AllComps = []Comp{CompDefault, CompSendGzip, CompSendMin, CompCustom}
@@ -286,11 +286,11 @@ func (u *unaryH) Receive() (*BV, error) {
 	u.taken = true
 	return u.req.Msg, nil
 }
-func (u *unaryH) Send(m *BV) error            { u.resp = m; return nil }
-func (u *unaryH) RequestHeader() http.Header  { return u.req.Header() }
-func (u *unaryH) ResponseHeader() http.Header { return u.hdr }
+func (u *unaryH) Send(m *BV) error             { u.resp = m; return nil }
+func (u *unaryH) RequestHeader() http.Header   { return u.req.Header() }
+func (u *unaryH) ResponseHeader() http.Header  { return u.hdr }
 func (u *unaryH) ResponseTrailer() http.Header { return u.trail }
-func (u *unaryH) Spec() connect.Spec          { return u.req.Spec() }
+func (u *unaryH) Spec() connect.Spec           { return u.req.Spec() }
 
 type clientH struct {
 	s          *connect.ClientStream[BV]
